@@ -2,6 +2,7 @@ package kvql
 
 import (
 	"fmt"
+	"strconv"
 	"strings"
 )
 
@@ -262,7 +263,7 @@ func (a *AggregatePlan) batchGetAggrKeys(chunk []KVPair, ctx *ExecuteCtx) ([]str
 			if err != nil {
 				return nil, err
 			}
-			aggKey = append(aggKey, bval...)
+			aggKey = appendAggrKeyPart(aggKey, bval)
 		}
 		ret[i] = string(aggKey)
 	}
@@ -497,7 +498,7 @@ func (a *AggregatePlan) getAggrKey(key []byte, val []byte, ctx *ExecuteCtx) (str
 	if a.AggrAll {
 		return defaultAggrKey, nil
 	}
-	gkey := ""
+	gkey := make([]byte, 0, 16)
 	kvp := NewKVP(key, val)
 	for _, f := range a.GroupByFields {
 		eval, err := f.Expr.Execute(kvp, ctx)
@@ -508,9 +509,18 @@ func (a *AggregatePlan) getAggrKey(key []byte, val []byte, ctx *ExecuteCtx) (str
 		if err != nil {
 			return "", err
 		}
-		gkey += string(bval)
+		gkey = appendAggrKeyPart(gkey, bval)
 	}
-	return gkey, nil
+	return string(gkey), nil
+}
+
+// appendAggrKeyPart appends one group by value to the group key. Every value
+// is prefixed with its length, so two different value tuples can never build
+// the same key: ('a', 'bc') is "1:a2:bc" and ('ab', 'c') is "2:ab1:c".
+func appendAggrKeyPart(key []byte, val []byte) []byte {
+	key = strconv.AppendInt(key, int64(len(val)), 10)
+	key = append(key, ':')
+	return append(key, val...)
 }
 
 func (a *AggregatePlan) execExpr(kvp KVPair, expr Expression, ctx *ExecuteCtx) ([]byte, error) {
